@@ -211,7 +211,7 @@ def rule_coalesce(P) -> RuleResult:
 # R-IDXBOUND: the three positional-reference resolvers on a small abstract targets list
 
 def _targets(n_visible, n_hidden, names=None):
-    names = names or ['a', 'b', 'a', 'c', 'd'][:n_visible]      # note the duplicate name
+    names = names or (['a', 'b', 'a', 'c', 'd'][:n_visible] if n_visible >= 3 else ['a', 'a'][:n_visible])      # note the duplicate name
     tg = [Sym(f'TARGET{i}') for i in range(n_visible + n_hidden)]
     attrs = {}
     for i, t in enumerate(tg):
@@ -221,10 +221,24 @@ def _targets(n_visible, n_hidden, names=None):
     return tg, attrs
 
 
-def rule_idxbound(P) -> RuleResult:
+def rule_idxbound_deep(P) -> list:
+    """Every number of visible targets 1..5, 0..2 invisible targets, every position from -2 to n+3."""
+    out = RuleResult('R-IDXBOUND-DEEP')
+    out.exhaustive = True
+    for n in (1, 2, 3, 4, 5):
+        r = rule_idxbound(P, N=n, hiddens=(0, 1, 2), positions=tuple(range(-2, n + 4)), flow=False)
+        out.instances.extend(dict(i, targets=n) if isinstance(i, dict) else i for i in r.instances)
+        for f in r.findings:
+            f.rule = 'R-IDXBOUND-DEEP'
+            f.detail = f'{f.detail}:n={n}'
+            out.findings.append(f)
+    return out
+
+
+def rule_idxbound(P, N=3, hiddens=(0, 1), positions=None, flow=True) -> RuleResult:
     res = RuleResult('R-IDXBOUND')
     res.exhaustive = True
-    N = 3
+    POS = positions or (0, 1, N, N + 1, -1)
 
     def run(fi, env, attrs, extra_call=None, is_int=None):
         def on_attr(base, attr, ex):
@@ -268,7 +282,7 @@ def rule_idxbound(P) -> RuleResult:
     # GROUP BY: resolved on the SELECT list before any invisible target exists
     fi = _method(P, '_compile_group_by')
     ok = True
-    for pos in (0, 1, N, N + 1, -1):
+    for pos in POS:
         tg, attrs = _targets(N, 0)
         GB = Sym('GROUP_BY')
         attrs[(GB, 'columns')] = SList([pos])
@@ -286,12 +300,12 @@ def rule_idxbound(P) -> RuleResult:
         for g in got:
             ok &= judge('GROUP BY', fi, pos, g, want, f'with {N} targets')
     if ok:
-        res.ok({'clause': 'GROUP BY', 'positions': [0, 1, N, N + 1, -1], 'targets': N})
+        res.ok({'clause': 'GROUP BY', 'positions': list(POS), 'targets': N})
     # ORDER BY: resolved among the visible targets (duplicates count, invisible ones do not)
     fi = _method(P, '_compile_order_by')
     ok = True
-    for hidden in (0, 1):
-        for pos in (0, 1, N, N + 1, -1):
+    for hidden in hiddens:
+        for pos in POS:
             tg, attrs = _targets(N, hidden)
             SPEC, ORD = Sym('SPEC'), Sym('ORDERING')
             attrs[(SPEC, 'column')] = pos
@@ -309,15 +323,15 @@ def rule_idxbound(P) -> RuleResult:
             for g in got:
                 ok &= judge('ORDER BY', fi, pos, g, want, f'with {N} targets (two of them named alike)' + (' and an invisible GROUP BY target' if hidden else ''))
     if ok:
-        res.ok({'clause': 'ORDER BY', 'positions': [0, 1, N, N + 1, -1], 'targets': N, 'with_invisible_target': [False, True]})
+        res.ok({'clause': 'ORDER BY', 'positions': list(POS), 'targets': N, 'invisible_targets': list(hiddens)})
     # PIVOT BY: same domain; the other reference is a valid, different, grouped column
     fi = _method(P, '_compile_pivot_by')
     ok = True
-    for hidden in (0, 1):
-        for pos in (0, 1, N, N + 1, -1):
+    for hidden in hiddens:
+        for pos in POS:
             tg, attrs = _targets(N, hidden)
             PB = Sym('PIVOT_BY')
-            other = 2
+            other = 2 if N >= 2 else 1
             attrs[(PB, 'columns')] = SList([pos, other])
             got = set()
             for p in run(fi, {'self': SELF, fi.params[1]: PB, fi.params[2]: SList(tg), fi.params[3]: SList(list(range(N + hidden)))}, attrs):
@@ -327,12 +341,13 @@ def rule_idxbound(P) -> RuleResult:
                     got.add(p.value.items[0] if p.value.items[1] == other - 1 else f'pivots {p.value.items}')
                 else:
                     got.add(f'{p.outcome} {show(p.value)[:40]}')
-            want = pos - 1 if 1 <= pos <= N and pos != other else None
+            want = pos - 1 if 1 <= pos <= N and pos != other and other <= N else None
             for g in got:
                 ok &= judge('PIVOT BY', fi, pos, g, want, f'with {N} targets' + (' and an invisible GROUP BY target' if hidden else ''))
     if ok:
-        res.ok({'clause': 'PIVOT BY', 'positions': [0, 1, N, N + 1, -1], 'targets': N, 'with_invisible_target': [False, True]})
-    targets_flow_cases(P, res, 'idxbound')
+        res.ok({'clause': 'PIVOT BY', 'positions': list(POS), 'targets': N, 'invisible_targets': list(hiddens)})
+    if flow:
+        targets_flow_cases(P, res, 'idxbound')
     return res
 
 
@@ -956,3 +971,99 @@ def transform_cases(P, res):
                 res.ok({'handler': meth, 'compiles': f'{tr}(node)'})
             else:
                 res.fail(f'{CO}:Compiler.{meth}', 'fieldflow:delegate', f'{meth} must compile the SELECT expansion {tr}(node); returns `{show(p.value)[:80]}`', loc(f))
+
+
+
+def format_parser_cases(P, res):
+    """Settings._parse_format: the value that is returned (and then stored) is the very value whose membership in FORMATS was
+    tested; everything else is rejected with ValueError."""
+    sh = P.module('beanquery.shell')
+    st = sh.classes.get('Settings')
+    pf = st.methods.get('_parse_format') if st else None
+    if pf is None:
+        raise AnalysisError('anchor vanished: Settings._parse_format')
+    VALUE = Sym('VALUE')
+    ok = True
+    n = 0
+    for p in Engine(P).paths(pf, {'self': Sym('SETTINGS'), pf.params[1]: VALUE}):
+        n += 1
+        if p.outcome == 'raise':
+            if p.value[0] != 'ValueError':
+                ok = False
+                res.fail(pf.fq, 'settings:parser:format', f'an invalid format must be rejected with ValueError; raises {p.value[0]}', loc(pf))
+            continue
+        member = False
+        for t, outcome in p.decisions:
+            if isinstance(t, T) and t.op == 'cmp' and t.args[0] in ('in', 'not in') and 'FORMATS' in show(t.args[2]):
+                if t.args[1] == p.value and outcome == (t.args[0] == 'in'):
+                    member = True
+        if not member:
+            ok = False
+            res.fail(pf.fq, 'settings:parser:format', f'_parse_format returns `{show(p.value)}` without having established that this very '
+                     f'value is one of FORMATS (tested: {[show(t) for t, _ in p.decisions] or "nothing"}): a value the renderer table does '
+                     f'not know is stored and every later query fails', loc(pf))
+    if ok and n:
+        res.ok({'parser': pf.fq, 'paths': n, 'returns': 'the tested value, a member of FORMATS'})
+
+
+# ----------------------------------------------------------------------
+# R-INOP (C08): IN / NOT IN hand the compiled operands on as they are
+
+def rule_inop(P) -> RuleResult:
+    res = RuleResult('R-INOP')
+    res.exhaustive = True
+    fi = _method(P, '_inop')
+    NODE, LEFT, RIGHT, OP = Sym('NODE'), Sym('C_LEFT'), Sym('C_RIGHT'), Sym('OPERATOR')
+    for kind in ('subquery-1-column', 'subquery-2-columns', 'list-or-value'):
+        def on_attr(base, attr, ex):
+            if base == NODE and attr in ('left', 'right'):
+                return Sym('AST_' + attr)
+            if base == RIGHT and attr == 'columns':
+                return SList([Sym('COL0')] if kind == 'subquery-1-column' else [Sym('COL0'), Sym('COL1')])
+            return NotImplemented
+
+        def on_call(fname, fval, recv, args, kwargs, ex, node):
+            f = str(fname).split('.')[-1]
+            if f == '_compile':
+                return LEFT if args == (Sym('AST_left'),) else RIGHT
+            if f == 'EvalConstantSubquery1D':
+                return T('new', ('EvalConstantSubquery1D', args))
+            if f == 'type':
+                return Sym('NODETYPE')
+            if fval == OP:
+                return T('new', ('OPNODE', args))
+            return NotImplemented
+
+        def on_item(base, idx, ex):
+            if isinstance(base, T) and base.op == 'global' and base.args[0].endswith('OPERATORS'):
+                return SList([OP])
+            return NotImplemented
+
+        def on_isinstance(v, c, ex):
+            if v == RIGHT and gname(c).endswith('EvalQuery'):
+                return kind.startswith('subquery')
+            return NotImplemented
+        n0 = len(res.findings)
+        for p in Engine(P, on_attr=on_attr, on_call=on_call, on_item=on_item, on_isinstance=on_isinstance).paths(fi, {'self': SELF, fi.params[1]: NODE}):
+            stores = [e for e in p.events if e[0] in ('store', 'aug') and (contains(e[1], RIGHT) or contains(e[1], LEFT))]
+            muts = [e for e in p.events if e[0] == 'call' and isinstance(e[1], str) and (e[1].startswith('C_RIGHT.') or e[1].startswith('C_LEFT.'))
+                    and e[1].split('.')[-1] in ('update', 'append', 'extend', 'clear', 'sort', '__setattr__')]
+            if stores or muts:
+                what = show(stores[0][1]) if stores else muts[0][1]
+                res.fail(fi.fq, 'inop:modifies', f'IN / NOT IN with a {kind} operand: the compiled operand is modified (`{what}`): the '
+                         f'subquery no longer runs as written (its DISTINCT / LIMIT / ORDER BY interact), so `x IN (q)` differs from membership '
+                         f'in the rows of q', loc(fi))
+                continue
+            if kind == 'subquery-2-columns':
+                if not (p.outcome == 'raise' and p.value[0] == 'CompilationError'):
+                    res.fail(fi.fq, 'inop:columns', f'a subquery with more than one column on the right of IN must be rejected with a '
+                             f'CompilationError; got {p.outcome} `{show(p.value)[:60]}`', loc(fi))
+                continue
+            want_right = T('new', ('EvalConstantSubquery1D', (RIGHT,))) if kind == 'subquery-1-column' else RIGHT
+            if p.outcome != 'return' or p.value != T('new', ('OPNODE', (LEFT, want_right))):
+                res.fail(fi.fq, 'inop:operands', f'IN / NOT IN with a {kind} operand must apply the operator to (left, '
+                         f'{"the one-column subquery as a constant list" if kind == "subquery-1-column" else "right"}); got {p.outcome} '
+                         f'`{show(p.value)[:100]}`', loc(fi))
+        if len(res.findings) == n0:
+            res.ok({'handler': fi.fq, 'right_operand': kind, 'operands': 'handed on unmodified'})
+    return res
